@@ -29,6 +29,8 @@ pub fn check(tier: Tier) -> Check {
         Part::new("C16/disciplines", json!({"depth": tier.pick(3, 4), "pairs": false, "faults": true}), 0, tier.pick(45, 600)),
         // an extra poll of the context task while a fragment of the next packet sits behind a big one
         Part::new("C16/after-big", json!({"sizes": [9000, 70_000]}), 0, 120),
+        // real time passes on a connection with a keep-alive (the one place where the wall clock could matter)
+        Part::new("C16/idle", json!({}), 0, 60),
     ];
     Check {
         also_rel: true,
@@ -115,7 +117,47 @@ fn run_script(
     (tr, sys.violations, applicable)
 }
 
+/// Keep Alive 1 s (requested in CONNECT / imposed by the CONNACK / both), 1.3 s of real time without
+/// any traffic, then an unrequested poll of every task: nothing may be written or completed by it
+/// (the library has no timer of its own; anything it wants to do later needs a wakeup).
+fn idle(name: String, params: Value) -> Scenario {
+    Box::new(move |chz, ex| {
+        let how = chz.choose(3);
+        let mut sys = Sys::new("C16", &name, chz);
+        sys.params = params.clone();
+        let spec = ConnectSpec { keep_alive: if how != 1 { Some(1) } else { None }, ..Default::default() };
+        let props = if how != 0 { vec![pvcore::refcodec::Prop::u16(pvcore::refcodec::P_SERVER_KEEP_ALIVE, 1)] } else { vec![] };
+        sys.connect_with(spec, SPacket::Connack { session_present: false, reason: 0, props });
+        if !sys.dead {
+            sys.start_run();
+        }
+        sys.apply(Ev::Start(OpSpec::Subscribe(SubscribeSpec::simple("s/idle"))));
+        if sys.dead {
+            return sys.report(ex, &[]);
+        }
+        let ack = sys.ack_for(0, 0, "").unwrap();
+        sys.apply(Ev::Deliver(ack));
+        sys.apply(Ev::TakeStream(0));
+        sys.apply(Ev::Start(OpSpec::Publish(PublishSpec::simple(1, "t/idle", b"pending"))));
+        sys.events.push("(1.3 s of real time pass)".into());
+        std::thread::sleep(std::time::Duration::from_millis(1300));
+        sys.apply(Ev::Spurious(Tid::Ctx));
+        sys.apply(Ev::Spurious(Tid::Op(1)));
+        sys.apply(Ev::Spurious(Tid::Stream(0)));
+        sys.apply(Ev::Spurious(Tid::Ctx));
+        if let Some(a) = sys.ack_for(1, 0, "") {
+            sys.apply(Ev::Deliver(a));
+        }
+        sys.finish();
+        sys.m.hits.push("puback");
+        sys.report(ex, &["puback"]);
+    })
+}
+
 pub fn scenario(name: &str, params: &Value) -> Scenario {
+    if name == "C16/idle" {
+        return idle(name.to_string(), params.clone());
+    }
     if name == "C16/after-big" {
         return super::c03::after_big("C16", name.to_string(), params.clone());
     }
